@@ -11,7 +11,7 @@ from ..protos import stun
 PROP = "C15"
 RULE = ("binding requests in every form the signature set recognises (magic cookie with length 0 / 8 / 0x100..0x3fc and "
         "attribute lists of unknown types, RFC 3489 without cookie, with and without CHANGE-REQUEST) from every source port "
-        "0..65535 (partitioned over the shards) and random ports, IPv4 and IPv6, UDP and validated TCP flows; the response is "
+        "0..65535 (partitioned over the shards) and random ports, retransmissions of the same request (same transaction id and address) from other source ports, random logger / verbosity settings, IPv4 and IPv6, UDP and validated TCP flows; the response is "
         "decoded by an independent STUN codec (type 0x0101, 128-bit id, length, MAPPED-ADDRESS family/address/port) and the "
         "reply source port must be destination+1 mod 2^16 exactly when one change-port CHANGE-REQUEST is present (destination "
         "ports 65535/65534/0 included). Negative: every other class/method (all 2^14 type values sampled, one-bit neighbours of "
@@ -22,13 +22,14 @@ ASSUME = ["attribute lengths are multiples of 4 in the must-answer set (RFC 5389
           "messages not identified as STUN by both matchers belong to C10"]
 
 
-def positive(ctx, lab, form, v6, tr, sp=None, dp=None):
+def positive(ctx, lab, form, v6, tr, sp=None, dp=None, reuse=None):
     rng = ctx.rng
-    req, tid, ncp = stun.gen_request(rng, form)
+    req, tid, ncp = stun.gen_request(rng, form) if reuse is None else reuse
     if lab.identified(req, tr) != sigref.STUN:
         ctx.stats["skipped_matcher_disagreement"] += 1
         return
-    a = lab.ask(req, tr, v6=v6, sp=sp, dp=dp)
+    a = lab.ask(req, tr, v6=v6, sp=sp, dp=dp, e=getattr(lab, "_pin_e", None))
+    lab._last = (req, tid, ncp, a.e)
     ctx.stats["positive_%s_%s" % (form, tr)] += 1
     ctx.nontrivial("pos", form, v6, tr, a.sp, a.dp, tid)
     errs = stun.check_response(a.rep, tid, a.e.cip, a.sp)
@@ -108,12 +109,19 @@ def shard(ctx, budget_s):
         negative_types(ctx, lab, [0x0001 ^ (1 << b) for b in range(14)] + [0x0101, 0x0111, 0x0011, 0x0002, 0x0003, 0x0102, 0x3FFF, 0x3EEF, 0x0081, 0x0201, 0x1001, 0x2001])
     n = 0
     while time.time() < deadline or n == 0:
-        cfg = gen.rnd_config(rng, deny=False, logger="n", level=0)
+        cfg = gen.rnd_config(rng, deny=False, logger=rng.choice("nnncl"), level=rng.choice([0, 0, 2, 3, 4, 5]))
         ctx.case(cfg)
         lab = AppLab(ctx, cfg)
         for _ in range(30):
             positive(ctx, lab, rng.choice(forms), v6=rng.random() < 0.5, tr=rng.choice(["udp", "tcp"]),
                      dp=rng.choice([65535, 65534, 0, gen.rnd_port(rng)]))
+            if rng.random() < 0.3 and hasattr(lab, "_last"):
+                # a client retransmitting the very same request (same transaction id, same address) from other source ports
+                req, tid, ncp, e = lab._last
+                lab._pin_e = e
+                for _k in range(rng.choice([1, 2, 3])):
+                    positive(ctx, lab, "retransmit", v6=e.v6, tr="udp", sp=gen.rnd_port(rng), reuse=(req, tid, ncp))
+                lab._pin_e = None
         negative_types(ctx, lab, [t for t in (rng.randrange(0x4000) for _ in range(6)) if t != 1])
         malformed(ctx, lab)
         n += 1
